@@ -3,6 +3,18 @@
 import json, os
 
 CLAIMS = {
+ "C03": {
+  "text": "Decides the structural clauses that make post-state reads see pre-state + all of the set's mutations: the pre/post x own/extern routing table (derived from variant names), that the first pass runs with an empty post view, that the insert loop covers every solution and mutation of the set returned by the first pass keyed by (contract, key), that the second pass is dominated by the first and given the built view, that the view forwards requests unchanged and delegates to the pre-state where nothing is proposed, that the deferral mask contains every Post* flag, the run-mode split, and that deferral is closed under descendants (fixed point). Partial claim: the overlay arithmetic is not decided.",
+  "note": "Depends on C15 (exactness of the byte scan). Value-level clauses (next_key carry, straddling ranges, deletion) are not decided.",
+  "technique": "static analysis: MIR match tables, provenance of call arguments, dominance between passes, natural-loop structure (fixed-point detection)",
+  "design_ref": "3/C03",
+ },
+ "C11": {
+  "text": "Decides routing (view x contract) for the four key-range ops, that key and count handed to the state are exactly the popped components and the external address is the 4 popped words, that state errors are wrapped unchanged, that the module never grows memory and only pops the stack, and the layout skeleton of the writer (pair area of 2*len, [addr,len] store then value store per value, cursors advancing by 2 and len). Partial claim: the popping order on all stacks and over/under-delivery by the state are not decided.",
+  "note": "Bounds of the stores are C05 (store_range is bounds-checked).",
+  "technique": "static analysis: MIR match tables, provenance of call arguments, callee whitelists per module (frame rule), loop/def-use structure of the writer",
+  "design_ref": "3/C11",
+ },
  "C07": {
   "text": "Decides the structural clauses of gas accounting on every path of Vm::exec: the op-executing call is dominated by success of checked_add(total, op_gas_cost(op)) filtered by `sum <= gas_limit.total` for the very op it executes (so an op that would exceed the limit has no effect); every definition of the running total is 0 or the payload of such a checked, limit-filtered sum, including the gas joined from compute children; no unchecked u64 arithmetic exists in essential-vm / essential-check; the checker sums with saturating_add. Partial claim: the value statement `reported gas = sum of executed costs` is decided only as this structure.",
   "note": "Assumes OpGasCost is a pure function. Observation K1 (children each receive the full limit) is documented, not claimed as a violation. Termination follows informally from R1 with positive costs.",
